@@ -1428,3 +1428,42 @@ def request_ids_reserved_atomically(ctx, rule):
                 if same and dep and x.can_reach(ld.bb, st.bb):
                     R.bad(rule, "%s:load-then-store" % fkey(x), "%s reads an atomic and stores a value computed from it back: the update is not atomic, two threads can observe the same value" % short(x.path), where(st))
     R.ok(rule, "no-load-then-store", "no non-atomic read-modify-write in %d client bodies" % n)
+
+
+def awaited_outcome_arms(b, c):
+    """(ok_targets, err_targets) of the Result produced by the awaited call `c` in `b`: the blocks entered when it is found
+    Ok / Err - by `match` / `if let`, by `?` (also behind map_err / map), or by is_ok() / is_err()."""
+    vl, rb = awaited_value_local(b, c)
+    if vl is None:
+        return set(), set()
+    holders = set(follow_value(b, vl))
+    for _ in range(3):
+        for m in b.calls_to(r"Result::<.*>::(map_err|map|or_else|and_then)$"):
+            if m.dest is not None and m.args and any(arg_is_local(b, m.args[0], h) for h in holders):
+                holders |= set(follow_value(b, m.dest["l"]))
+    oks, errs = set(), set()
+    for h in holders:
+        for sb, arms, other in flow.switch_on(b, h):
+            if arms.get("0") is not None:
+                oks.add(arms["0"])
+            if arms.get("1") is not None:
+                errs.add(arms["1"])
+    for br in b.calls_to(r"Try.*::branch$"):
+        if any(arg_is_local(b, br.args[0], h) for h in holders):
+            for sb, arms, other in flow.switch_on(b, br.dest["l"]):
+                if arms.get("0") is not None:
+                    oks.add(arms["0"])
+                if arms.get("1") is not None:
+                    errs.add(arms["1"])
+    for q in b.calls_to(r"Result::<.*>::(is_ok|is_err)$"):
+        pl = op_place(q.args[0]) if q.args else None
+        if pl is None or not (flow._local_copies_back(b, pl["l"], 6) & holders):
+            continue
+        neg = (q.name() or "").endswith("is_err")
+        for sb, arms, other in flow.switch_on(b, q.dest["l"]):
+            t, f = arms.get("1"), arms.get("0")
+            if t is not None:
+                (errs if neg else oks).add(t)
+            if f is not None:
+                (oks if neg else errs).add(f)
+    return oks, errs
